@@ -581,7 +581,7 @@ def _large_acyclic(n, a, owners, numbering):
     return g
 
 
-U_A_SIZES_QUICK = (12, 17, 33, 51, 65, 100, 130, 258)
+U_A_SIZES_QUICK = (12, 17, 33, 51, 65, 100, 130, 300)
 U_A_SIZES_ALL = (12, 13, 17, 33, 34, 51, 65, 66, 100, 129, 130, 200, 258, 300, 513)
 
 
@@ -594,4 +594,59 @@ def U_A_games(sizes=U_A_SIZES_ALL):
             for owners in range(3):
                 for numbering in ("asc", "desc", "inter"):
                     games.append(_large_acyclic(n, a, owners, numbering))
+    return games
+
+
+def U_K_games():
+    """index-pair games: 16 states in which the transitions 1->12, 1->13, 11->2, 11->3 and the successor lists [1, 12] and
+    [11, 2] all occur (indices whose decimal strings concatenate to the same text: "1"+"12" == "11"+"2"), with every
+    assignment of four different win probabilities and rewards to the leaves 2, 3, 12, 13 and both owners for each pair of
+    player states.  Anything keyed by unseparated index strings mixes these states up."""
+    games = []
+    L, W = 14, 15
+    for perm in itertools.permutations((0.25, 0.5, 0.75, 0.9)):
+        for rperm in ((0, 1, 2, 3), (3, 2, 1, 0), (1, 3, 0, 2)):
+            for K in (P1, P2):
+                for K2 in (P1, P2):
+                    leaf = dict(zip((2, 3, 12, 13), perm))
+                    lrew = dict(zip((2, 3, 12, 13), rperm))
+                    st = {0: (PR, 0, [(0.25, 4), (0.25, 5), (0.25, 1), (0.25, 11)]),
+                          1: (K, 1, [(ACTIONS[0], 12), (ACTIONS[1], 13)]),
+                          11: (K, 0, [(ACTIONS[0], 2), (ACTIONS[1], 3)]),
+                          4: (K2, 0, [(ACTIONS[0], 1), (ACTIONS[1], 12)]),
+                          5: (K2, 1, [(ACTIONS[0], 11), (ACTIONS[1], 2)]),
+                          L: (PR, 0, [(1, L)]), W: (PR, 0, [(1, W)])}
+                    for s_, p in leaf.items():
+                        st[s_] = (PR, lrew[s_], [(p, W), (round(1 - p, 2), L)])
+                    for s_ in (6, 7, 8, 9, 10):
+                        st[s_] = (PR, 0, [(1, W)])
+                    games.append(dict(rewards=[st[i][1] for i in range(16)], players=[st[i][0] for i in range(16)],
+                                      transition_list=[list(st[i][2]) for i in range(16)], final_states=[W]))
+    return games
+
+
+def U_H_games(length=520):
+    """one very long dead corridor: the initial state flips a coin between a sure win and a corridor of `length` states
+    (alternately probabilistic and Player 2) that ends in the losing state; after conditioning the corridor is cut off at its
+    first state and every later state loses its only predecessor, one after the other"""
+    games = []
+    for variant in (0, 1):
+        n = length + 4
+        V, L, W = n - 3, n - 2, n - 1
+        players = [PR]
+        tl = [[(0.5, 1), (0.5, V)]]
+        rewards = [1]
+        for i in range(1, length + 1):
+            nxt = i + 1 if i < length else L
+            if (i + variant) % 2 == 0:
+                players.append(P2)
+                tl.append([(ACTIONS[0], nxt)])
+            else:
+                players.append(PR)
+                tl.append([(1, nxt)])
+            rewards.append(i % 2)
+        players += [PR, PR, PR]
+        tl += [[(1, W)], [(1, L)], [(1, W)]]
+        rewards += [2, 0, 0]
+        games.append(dict(rewards=rewards, players=players, transition_list=tl, final_states=[W]))
     return games
